@@ -5,9 +5,9 @@ import common as C
 from gen import matchers as G
 
 PROPERTY = "C17"
-LEAN_MODULES = ["LccModel.Props.C17", "LccModel.Model.MatcherJson", "LccModel.Proto"]   # the last two: what drivers/C17.lean imports
-PROPS_FILES = ["LccModel/Props/C17.lean"]
-NAMESPACES = {"LccModel/Props/C17.lean": "LccModel.C17"}
+LEAN_MODULES = ["LccModel.Props.C17", "LccModel.Props.C17Seq", "LccModel.Model.MatcherObjJson", "LccModel.Proto"]   # the last two: what drivers/C17.lean imports
+PROPS_FILES = ["LccModel/Props/C17.lean", "LccModel/Props/C17Seq.lean"]
+NAMESPACES = {"LccModel/Props/C17.lean": "LccModel.C17", "LccModel/Props/C17Seq.lean": "LccModel.C17Seq"}
 DRIVER = "drivers/C17.lean"
 TRUSTED_BASE = [
     "Lean 4.33.0 kernel; axioms of the property theorems ⊆ {propext, Classical.choice, Quot.sound}",
@@ -17,6 +17,10 @@ TRUSTED_BASE = [
     "over a leaf alphabet, sampled depth 3-4) are compared character by character with the real build_description",
     "the bounded injectivity theorem is exhaustive over the finite universe LccModel.C17.universe only; the same grouping is re-done on "
     "the real code over a larger universe by the stream C17.inject",
+    "hand-written model LccModel/Model/MatcherObj.lean of matcher OBJECTS used over time (store of mutable expected values, objects = "
+    "constructor calls holding references, no state of their own); tied to the code by the stream C17.seq (harness/props/_matcherseq.py): "
+    "sequences of constructions, in-place mutations, descriptions and check_that/require_that/assert_that in a real session, compared "
+    "operation by operation",
 ]
 ASSUMPTIONS = [
     "fixes/D12-D13-not-description-shared-transformer.diff is applied to the code under test (the model mirrors the repaired "
@@ -24,13 +28,17 @@ ASSUMPTIONS = [
     "the leading verb of an overridden description is ASCII (the model's \\w is ASCII-only)",
 ]
 RULE = ("matcher expression over leaf matchers, not_, all_of, any_of, has_entry, has_item, has_all_items, has_length and the type matchers; "
-        "non-trivial = nesting depth >= 2 (C17.describe) / a pool or exhaustive range containing expressions of depth >= 2 (C17.inject); "
+        "non-trivial = nesting depth >= 2 (C17.describe) / a pool or exhaustive range containing expressions of depth >= 2 (C17.inject) / "
+        "a sequence of >= 4 operations with an in-place mutation of an expected value or an object passed to another constructor (C17.seq); "
         "distinct = hash of the case")
 EXPLANATION = ("Sibling independence, negation-follows-logic and non-mutation of the shared transformer are Lean theorems over all matcher "
                "trees; injectivity of descriptions is proved exhaustively for a finite universe (depth <= 2) under the guard that excludes the "
                "two open findings, which have refutation theorems. The model is tied to the code by exact comparison of description texts; "
                "the oracle groups real descriptions by equality and compares accepted value sets, and compares each child's wording alone "
-               "and inside a composite.")
+               "and inside a composite. Matcher objects used over time (built on mutable expected values and on each other, described and "
+               "checked several times): history independence and 'sentence and verdict are read from the same value' are Lean theorems "
+               "over all operation sequences (LccModel.C17Seq); the stream C17.seq replays generated sequences on the real code and "
+               "compares every sentence with brand-new matchers built on every state the expected values went through.")
 
 
 def _T(tr):
@@ -99,6 +107,12 @@ def has_unescaped_quote_argument(e):
     return any(has_unescaped_quote_argument(s) for s in G.sub_exprs(e))
 
 
+def has_nonstr_dict_key(e):
+    """an expected value that is (or contains) a dict with a key that is not a str: json.dumps writes 1, None, True as "1", "null",
+    "true", so the rendering no longer tells {1: x} from {"1": x}"""
+    return G.key_feature(G.literals_of(e)) is not None
+
+
 CLAUSE_HOSTS_1 = ("has_item", "has_all_items", "has_length")     # [constructor, sub-matcher]
 CLAUSE_HOSTS_2 = ("has_entry", "is_type")                         # [constructor, key path / type, sub-matcher]
 
@@ -129,6 +143,7 @@ SIG_EMPTY = "C17/empty-all_of-any_of-same-description"
 SIG_CLAUSE = "C17/sub-matcher-clause-wording-depends-on-parent"
 SIG_CLAUSE_COLLISION = "C17/composite-sub-matchers-same-clause-description"
 SIG_QUOTE = "C17/string-argument-not-escaped-forges-wording"
+SIG_KEYTYPE = "C17/dict-key-type-lost-in-wording"
 SIG_NOTCOMP = "C17/not-over-composite-equals-composite-of-nots"
 SIG_COLLISION = "C17/same-description-different-accepted-values"
 SIG_SIBLING = "C17/sibling-dependent-wording"
@@ -311,7 +326,7 @@ ALPHABETS = {
 DOMAIN = [None, True, ["i", 0], ["i", 1], ["i", 2], ["f", 3], ["s", "a"], ["s", "ab"], ["s", "b"], ["l", []], ["l", [["i", 1]]],
           ["l", [["i", 1], ["s", "a"]]], ["l", [["s", "a"]]], ["l", [None]], ["l", [["l", [["i", 1]]]]], ["l", [["i", 0], ["i", 2]]],
           ["d", [["k", ["i", 1]]]], ["d", [["k", ["s", "a"]]]], ["d", [["k", None]]], ["d", [["k", ["l", [["i", 1]]]]]], ["d", []],
-          ["d", [["k", ["i", 0]]]], ["l", [["d", [["k", ["i", 1]]]]]]]
+          ["d", [["k", ["i", 0]]]], ["l", [["d", [["k", ["i", 1]]]]]], ["d", [[["i", 1], ["s", "a"]]]], ["d", [["1", ["s", "a"]]]]]
 
 
 def _apply_unary(u, e):
@@ -416,6 +431,8 @@ class Inject(C.Stream):
         {"mode": "pool", "exprs": CLAUSE_POOL},
         # D18 (open): a string argument containing a double quote reads like a composite of two string matchers
         {"mode": "pool", "exprs": [["any_of", [["starts_with", "a"], ["starts_with", "b"]]], ["starts_with", 'a" or to start with "b']]},
+        # D33 (open): a dict key that is not a str is written like the str of its JSON rendering: {1: "a"} reads like {"1": "a"}
+        {"mode": "pool", "exprs": [["equal_to", ["d", [[["i", 1], ["s", "a"]]]]], ["equal_to", ["d", [["1", ["s", "a"]]]]]]},
         # D12 / D13 (fixed)
         {"mode": "pool", "exprs": [["all_of", [["not_", _a], _b]], ["all_of", [["not_", _a], ["not_", _b]]]]},
         {"mode": "pool", "exprs": [["not_", ["not_", _a]], ["not_", _a]]},
@@ -481,11 +498,14 @@ class Inject(C.Stream):
         for col in obs["collisions"]:
             clean = [m for m in col["members"] if not has_empty_composite(m["expr"]) and not has_not_over_composite(m["expr"])]
             plain = [m for m in clean if not has_unescaped_quote_argument(m["expr"])]
-            hosts = [m for m in plain if is_clause_over_composite(m["expr"])]
+            strkeys = [m for m in plain if not has_nonstr_dict_key(m["expr"])]
+            hosts = [m for m in strkeys if is_clause_over_composite(m["expr"])]
             if len({m["accepts"] for m in hosts}) > 1:
                 sig, members = SIG_CLAUSE_COLLISION, hosts
+            elif len({m["accepts"] for m in strkeys}) > 1:
+                sig, members = SIG_COLLISION, strkeys
             elif len({m["accepts"] for m in plain}) > 1:
-                sig, members = SIG_COLLISION, plain
+                sig, members = SIG_KEYTYPE, plain
             elif len({m["accepts"] for m in clean}) > 1:
                 sig, members = SIG_QUOTE, clean
             elif any(has_not_over_composite(m["expr"]) for m in col["members"]):
@@ -496,7 +516,7 @@ class Inject(C.Stream):
                 continue
             seen.add(sig)
             a = members[0]
-            b = next(m for m in members if m["accepts"] != a["accepts"]) if sig in (SIG_COLLISION, SIG_QUOTE, SIG_CLAUSE_COLLISION) else \
+            b = next(m for m in members if m["accepts"] != a["accepts"]) if sig in (SIG_COLLISION, SIG_QUOTE, SIG_CLAUSE_COLLISION, SIG_KEYTYPE) else \
                 next(m for m in col["members"] if m["accepts"] != a["accepts"])
             fails.append(C.Failure(sig, f"{a['expr']} and {b['expr']} are both described as {col['description']!r} but accept "
                                         f"different values of the separating domain ({a['accepts']} / {b['accepts']})",
@@ -549,4 +569,5 @@ class Inject(C.Stream):
 
 
 def streams(ctx):
-    return [Describe(), Inject(ctx.tier)]
+    from props._matcherseq import Seq
+    return [Describe(), Inject(ctx.tier), Seq()]
